@@ -368,6 +368,148 @@ def R1(ctx, rule="R1"):
     return cm
 
 
+def rank_ord_rule(ctx, rule):
+    """`Rank`'s comparison operators are the derived ones (or a hand-written `cmp` on the inner number with nothing else
+    overridden): `>`/`<` in the rank update guard and the sort comparator mean what they say."""
+    fb = ctx.fb
+    why = []
+    for tr in ("std::cmp::PartialOrd", "std::cmp::Ord"):
+        imp = [i for i in fb.impls if i.get("trait") == tr and i.get("self_ty") == "rank::Rank"]
+        if not imp:
+            why.append("no %s impl for Rank" % tr.split("::")[-1])
+            continue
+        if imp[0].get("derived"):
+            continue
+        allowed = {"std::cmp::PartialOrd": {"partial_cmp"}, "std::cmp::Ord": {"cmp"}}[tr]
+        extra = sorted(set(imp[0].get("items", [])) - allowed)
+        if extra:
+            why.append("hand-written %s for Rank overrides %s: each operator would have to be shown consistent with cmp" % (tr.split("::")[-1], extra))
+            continue
+        mb = fb.bodies.get("<rank::Rank as %s>::%s" % (tr, sorted(allowed)[0]))
+        okb = False
+        if mb is not None:
+            calls = [callee_path(t) for _, t in mb.calls()]
+            if tr.endswith("::Ord"):
+                # cmp = inner.cmp(inner)
+                okb = calls.count("std::cmp::Ord::cmp") == 1 and all(c in ("std::cmp::Ord::cmp",) for c in calls) and not mb.back_edges() and \
+                    not any(blk["term"]["k"] == "switch" for blk in mb.blocks)
+                if okb:
+                    t_ = [t for _, t in mb.calls()][0]
+                    sides = []
+                    for a in t_["args"][:2]:
+                        ss = ctx.model.flow.sources_operand(mb, a)
+                        sides.append({q[2] for q in ss if q.kind == "param" and q[1] == mb.id})
+                    okb = sides == [{1}, {2}]
+            else:
+                okb = all(c in ("std::cmp::Ord::cmp", "std::cmp::PartialOrd::partial_cmp") for c in calls) and len(calls) == 1 and \
+                    not any(blk["term"]["k"] == "switch" for blk in mb.blocks)
+                if okb:
+                    t_ = [t for _, t in mb.calls()][0]
+                    sides = []
+                    for a in t_["args"][:2]:
+                        ss = ctx.model.flow.sources_operand(mb, a)
+                        sides.append({q[2] for q in ss if q.kind == "param" and q[1] == mb.id})
+                    okb = sides == [{1}, {2}]
+        if not okb:
+            why.append("hand-written %s for Rank is not `self.0.cmp(&other.0)` / `Some(self.cmp(other))`" % tr.split("::")[-1])
+    ctx.check(not why, rule, "rank-ord", "src/rank.rs",
+              "Rank is ordered by its inner number through the derived (or an equivalent hand-written cmp-only) PartialOrd/Ord",
+              "; ".join(why))
+
+
+def R7(ctx, rule="R7"):
+    """(a) every declared type of one function is compared with EVERY declared type of the other: the operands of a comparison
+    come from independent iterations (nested any / contains), never from one zipped, position-wise pairing;
+    (b) the pair scan is reached on every path through the function that contains it: no fast path returns early for a graph
+    that has functions."""
+    m, fl = ctx.model, ctx.model.flow
+    cm = conflict_model(ctx)
+    if "error" in cm:
+        ctx.unverifiable(rule, "site", "-", cm["error"])
+        return
+    n_cmp = 0
+    for (cb_, cbb_, ct_, sides_) in typeid_comparisons(ctx):
+        if not (sides_[0][0] and sides_[1][0]):
+            continue
+        n_cmp += 1
+        pos = False
+        if cb_.kind == "closure":
+            for (ub_, ubb_, ut_, ai_) in fl.closure_uses(cb_):
+                names_ = [c[0] for c in iterator_chain(ctx, ub_, expr_operand(ub_, ut_["args"][0]))] if ut_["args"] else []
+                if "std::iter::Iterator::zip" in names_:
+                    pos = True
+        lrz = loop_region(ctx, cb_, cbb_)
+        if lrz is not None and lrz.get("iter_expr") is not None and \
+                "std::iter::Iterator::zip" in [c[0] for c in iterator_chain(ctx, cb_, lrz["iter_expr"])]:
+            pos = True
+        ctx.check(not pos, rule, "all-pairs|%s" % short(cb_.id), m.where(cb_, cbb_),
+                  "the comparison's operands come from independent iterations over the two access lists (every type against every type)",
+                  "the two access lists are compared position by position (zip): a type both functions declare at different "
+                  "positions of their lists is never compared, so the conflict is missed")
+    fr_ = enum_frame(ctx, cm)
+    sb_ = fr_["body"]
+    tgt = None
+    hops = 0
+    while sb_.kind == "closure" and hops < 6:
+        hops += 1
+        us_ = fl.closure_uses(sb_)
+        if len(us_) != 1:
+            break
+        tgt = us_[0][1]
+        sb_ = us_[0][0]
+    if sb_.kind != "fn":
+        ctx.unverifiable(rule, "scan-always", m.where(sb_), "cannot find the function that owns the pair scan")
+        return
+    if fr_["body"].id == sb_.id or tgt is None:
+        # loops in the function's own body: the outermost loop around the insertion / helper call
+        skip = ()
+        while True:
+            lr_o = loop_region(ctx, sb_, fr_["bb"], skip_headers=skip)
+            if lr_o is None:
+                break
+            tgt = lr_o["next_bb"]
+            skip = skip + (lr_o["header"],)
+    else:
+        # a loop in the function around the outermost closure's consumer
+        skip = ()
+        site0 = tgt
+        while True:
+            lr_o = loop_region(ctx, sb_, site0, skip_headers=skip)
+            if lr_o is None:
+                break
+            tgt = lr_o["next_bb"]
+            skip = skip + (lr_o["header"],)
+    if tgt is None:
+        ctx.unverifiable(rule, "scan-always", m.where(sb_), "cannot locate the start of the pair scan")
+        return
+    reach0 = sb_.reachable(0, avoid={tgt})
+    byp = reach0 & set(sb_.exits())
+    okb = True
+    culprit = None
+    if byp:
+        can_tgt = set(x for x in range(len(sb_.blocks)) if x == tgt or tgt in sb_.reachable(x))
+        for x in sorted(reach0):
+            if sb_.blocks[x]["term"]["k"] != "switch" or x not in can_tgt:
+                continue
+            for s_ in sb_.succs(x):
+                if s_ in reach0 and s_ not in can_tgt and (({s_} | sb_.reachable(s_)) & set(sb_.exits())):
+                    de = strip_refs(switch_expr(sb_, x))
+                    fine = any(c.kind == "call" and (c[1] in NODE_COUNT_FNS or c[1].endswith(("::len", "::is_empty"))) for c in walk_expr(de)) and \
+                        not any(c.kind == "call" and c[1] in ACCESS_FNS for c in walk_expr(de))
+                    if fine:
+                        srcs_ = sources_of_expr(ctx, sb_, de, mode="taint")
+                        fine = not any(q.kind == "alloc" and q[4] in ACCESS_FNS for q in srcs_)
+                    if not fine:
+                        okb = False
+                        culprit = x
+    ctx.check(okb, rule, "scan-always|%s" % short(sb_.id), m.where(sb_, culprit if culprit is not None else tgt),
+              "every path through %s runs the pair scan (an early return is taken only on the number of functions)" % short(sb_.id),
+              "%s can return without scanning the pairs for a reason other than the number of functions (a fast path / early return): "
+              "conflicting functions stay unordered" % short(sb_.id))
+    if n_cmp < 2:
+        ctx.unverifiable(rule, "floor", "-", "expected >= 2 comparisons between the two functions' access lists, found %d" % n_cmp)
+
+
 def R1_truth_table(ctx, rule, cm):
     m, fl = ctx.model, ctx.model.flow
     b, bb, t, p = cm["site"]
@@ -1136,6 +1278,8 @@ def B3(ctx, rule="B3"):
               "the Data-edge insertion is not guarded by has_path_connecting: update_edge would overwrite a user edge's kind; redundant edges are added")
 
 
+# adaptors that change the order in which the functions of a batch are inserted (insertion order is observable: iter_insertion, FnId)
+REORDER_ITER = ("std::iter::Iterator::rev", "std::iter::Iterator::cycle", "std::iter::Iterator::chain")
 ADD_NODE = ("daggy::Dag::<N, E, Ix>::add_node", "petgraph::graph::Graph::<N, E, Ty, Ix>::add_node",
             "petgraph::stable_graph::StableGraph::<N, E, Ty, Ix>::add_node")
 
@@ -1199,7 +1343,7 @@ def ID_rules(ctx, rule="ID"):
                     sel = []
                     if drv_ok:
                         ub, ubb, ut, ai = uses[0]
-                        sel = [c[0] for c in iterator_chain(ctx, ub, expr_operand(ub, ut["args"][0])) if c[0] in SELECTIVE_ITER]
+                        sel = [c[0] for c in iterator_chain(ctx, ub, expr_operand(ub, ut["args"][0])) if c[0] in SELECTIVE_ITER or c[0] in REORDER_ITER]
                     over.append((v_ok and drv_ok and not sel, "slot <- %s%s" % (sorted(fmt_src(x) for x in vsrc)[:2], " narrowed by %s" % sel if sel else "")))
             for hp, hsites in sorted(helpers.items()):
                 hb = fb.bodies[hp]
@@ -1220,7 +1364,7 @@ def ID_rules(ctx, rule="ID"):
                     lr_ = loop_region(ctx, hb, bb)
                     sel = []
                     if lr_ is not None and lr_.get("iter_expr") is not None:
-                        sel = [c[0] for c in iterator_chain(ctx, hb, lr_["iter_expr"]) if c[0] in SELECTIVE_ITER]
+                        sel = [c[0] for c in iterator_chain(ctx, hb, lr_["iter_expr"]) if c[0] in SELECTIVE_ITER or c[0] in REORDER_ITER]
                     over.append((v_ok and not sel, "slot <- %s (through helper %s)%s" % (sorted(seen_v)[:2], short(hp), " narrowed by %s" % sel if sel else "")))
             if not over:
                 bad.append("placeholder elements are never overwritten with add_node results")
@@ -1800,6 +1944,20 @@ def D4(ctx, rule="D4"):
                             attrs.add("node_count")
                         if c.kind == "call" and c[1].endswith("::edge_count"):
                             attrs.add("edge_count")
+    # each comparison relates the two graphs: one operand derives from `self`, the other from `other`
+    for bid in sorted(m.reach(eqb.id)):
+        b = fb.bodies[bid]
+        for bb, t in b.calls():
+            if (callee_path(t) or "") not in ("std::cmp::PartialEq::eq", "std::cmp::PartialEq::ne") or len(t["args"]) < 2:
+                continue
+            sd = []
+            for a in t["args"][:2]:
+                ss = fl.sources_operand(b, a, (), "taint")
+                sd.append({q[2] for q in ss if q.kind == "param" and q[1] == eqb.id})
+            if sd[0] and sd[1] and len(sd[0]) == 1 and sd[0] == sd[1]:
+                ctx.bad(rule, "sides|%s" % short(b.id), m.where(b, bb),
+                        "a comparison inside FnGraph == relates a value of one graph to a value of the SAME graph (`x.f() == x.f()`): "
+                        "it is always true, so graphs differing there compare equal")
     # `a.eq(b)` over two iterators: elementwise equality of the full sequences; what an element consists of is read off the
     # iterator chains (a `map` to (source(), target(), weight), the node weights of iter_insertion())
     iter_eqs = []
